@@ -464,24 +464,33 @@ COMMUTATIVE: set[str] = set()  # names of binary function symbols assumed commut
 TERM_AXIOMS: dict = {}  # function symbol name -> callable(app) -> list of (assumed) ground facts about that term
 
 
-def commutativity_instances(formulas: list) -> list:
+def commutativity_instances(formulas: list, rounds: int = 4, limit: int = 3000) -> list:
+    """ground instances of commutativity and of the registered TERM_AXIOMS for the terms of the query
+    (iterated, because an instantiated axiom mentions new terms)"""
     out, seen = [], set()
-    stack = list(formulas)
-    while stack:
-        x = stack.pop()
-        i = x.get_id()
-        if i in seen:
-            continue
-        seen.add(i)
-        if z3.is_app(x):
-            if x.num_args() == 2 and x.decl().name() in COMMUTATIVE:
-                a, b = x.children()
-                if a.get_id() != b.get_id():
-                    out.append(x == x.decl()(b, a))
-            h = TERM_AXIOMS.get(x.decl().name()) if x.num_args() > 0 else None
-            if h is not None:
-                out.extend(h(x))
-            stack.extend(x.children())
-        elif z3.is_quantifier(x):
-            stack.append(x.body())
+    frontier = list(formulas)
+    for _ in range(rounds):
+        new = []
+        stack = frontier
+        while stack:
+            x = stack.pop()
+            i = x.get_id()
+            if i in seen:
+                continue
+            seen.add(i)
+            if z3.is_app(x):
+                if x.num_args() == 2 and x.decl().name() in COMMUTATIVE:
+                    a, b = x.children()
+                    if a.get_id() != b.get_id():
+                        new.append(x == x.decl()(b, a))
+                h = TERM_AXIOMS.get(x.decl().name()) if x.num_args() > 0 else None
+                if h is not None:
+                    new.extend(h(x))
+                stack.extend(x.children())
+            elif z3.is_quantifier(x):
+                stack.append(x.body())
+        if not new or len(out) > limit:
+            break
+        out.extend(new)
+        frontier = list(new)
     return out
